@@ -102,7 +102,9 @@ def templates():
         out.append(("tmpl", b, holes))
     for s in ['a = { "H" }', 'a = _{ H }', 'a = H{ b }', 'a = { b H c }', 'a = { bH }', 'a = { b{H} }', 'a = { b{H,H} }', "a = { 'H'..'H' }", 'a = { "\\H" }', 'a = { "\\xHH" }', 'a = { "\\u{HH}" }',
               'a = { PEEK[H..H] }', 'a = { PEEK[-H..] }', 'a = { PUSH(H) }', 'a = { ^"H" }', 'a = { !H ~ &H }', '//H\na = { b }', '/*H*/a={b}', '//! H\n', '/// H\na = { b }', 'a = { (b H c) }', 'aH= { b }', 'a = { #H = b }',
-              'a = {H}', 'a = { b }H', 'H = { b }', 'a = { | b }', 'a = { b+H }', 'a = { "a"H"b" }']:
+              'a = {H}', 'a = { b }H', 'H = { b }', 'a = { | b }', 'a = { b+H }', 'a = { "a"H"b" }',
+              # names that begin with a keyword of the meta-grammar
+              'a = { #PUSHH = b }', 'a = { #PEEK_x = b ~ #POP_ALLH = c }', 'a = { PUSH_ ~ POPH }', 'PUSHH = { PEEK_ALL_ | DROP_ }', 'a = { #PUSH_LITERALH = b }', 'a = { PUSH_LITERALH }', 'a = { #H = PUSH(b) }']:
         t(s)
     return out
 
@@ -136,7 +138,7 @@ def run(ctx):
     for s in starts[:1] if ctx.quick else starts[:4]:
         for n1 in range(RN[0] + 1):
             for n2 in range(RN[1] + 1): jobs.append((P, st["optimized"], s, ("reuse", n1, n2)))
-    tmpl = templates() if not ctx.quick else templates()[::2]
+    tmpl = templates() if not ctx.quick else (templates()[:29][::2] + templates()[29:])
     for t in tmpl: jobs.append((P, st["optimized"], "grammar_rules", t))
     t0 = time.time()
     res = par.pmap(explore, jobs, NCPU)
